@@ -62,3 +62,38 @@ pub fn distance_enum(a: &Geometry<f64>, b: &Geometry<f64>) -> f64 {
     use geo::{Distance, Euclidean};
     Euclidean.distance(a, b)
 }
+
+// ---- autoref-specialisation probes: call the impl when it exists, report None when it does not ----
+pub struct P<'a, A, B>(pub &'a A, pub &'a B);
+pub trait YesI {
+    fn go_i(&self) -> Option<bool>;
+}
+pub trait NoI {
+    fn go_i(&self) -> Option<bool>;
+}
+impl<'a, A: geo::Intersects<B>, B> YesI for P<'a, A, B> {
+    fn go_i(&self) -> Option<bool> {
+        Some(self.0.intersects(self.1))
+    }
+}
+impl<'a, A, B> NoI for &P<'a, A, B> {
+    fn go_i(&self) -> Option<bool> {
+        None
+    }
+}
+pub trait YesC {
+    fn go_c(&self) -> Option<bool>;
+}
+pub trait NoC {
+    fn go_c(&self) -> Option<bool>;
+}
+impl<'a, A: geo::Contains<B>, B> YesC for P<'a, A, B> {
+    fn go_c(&self) -> Option<bool> {
+        Some(self.0.contains(self.1))
+    }
+}
+impl<'a, A, B> NoC for &P<'a, A, B> {
+    fn go_c(&self) -> Option<bool> {
+        None
+    }
+}
